@@ -26,6 +26,10 @@ claim("C20", "must-held-lock dataflow per field access, who-may-call for lock-fr
       "Static rules over types/slice.go, set.go, map.go, events.go, utils/parameter-bag.go, yeast.go, base64id.go: every access of a guarded field is under the right (R)W lock and lock-free helpers are only called with it held (Map: dirty/misses/read.Store/*Locked under mu); no Slice method stores, appends onto or returns caller-shared storage; every parameter-dependent index/slice bound/make length is bounded on both sides before use; no nil entry can enter a listener slice, Emit iterates a snapshot once per entry, Once runs inside sync.Once, RemoveListener removes exactly one; ids embed all 64 bits of an atomic counter in URL-safe base64 and Yeast is one critical section. Linearizability of concurrent histories is not decided (lock discipline is the structural necessary condition).",
       TB, "DESIGN.md §3 C20")
 
+claim("C19", "select-arm/polarity table extraction from the AST and CFG of utils/timer.go, create/cancel pairing over resolved call sites, nil-holder licence by edge dominance",
+      "Static protocol-shape conditions only: the timeout goroutine calls its callback exactly once on the tick arm and never on the stop arm; the interval goroutine re-arms before running the callback and returns on the stop arm; Stop/Refresh polarities; Reset on every Refresh path; every timer created in /repo is cancelled by its owner's teardown and a holder is never overwritten without clearing; no dereferencing Timer method on a holder that can be nil. A looping goroutine requires an unconditional stop signal (violated by SetInterval: listed finding). Exact-once firing, never-after-cancel, promptness and refresh timing under all orders of runtime timer, goroutine and canceller — the bulk of the statement — are NOT decided.",
+      TB, "DESIGN.md §3 C19")
+
 UNDER_CONSTRUCTION = "static rule set designed in DESIGN.md §3 but its checker is not built yet in this revision; not claimed until it is"
 
 def main():
